@@ -756,7 +756,7 @@ def run_sched_case(ctx, case):
 
 
 # ----------------------------------------------------------------------------- real-thread smoke part
-SMOKE_CAP_S = 20.0
+SMOKE_CAP_S = 60.0
 
 
 def run_smoke_case(ctx, case):
